@@ -223,13 +223,56 @@ def d5_witness(J, work):
     return res
 
 
+def torn_tmp_witness(J, work):
+    """a kill between creating '<journal>.meta.tmp' and its content reaching the disk (file empty, or a prefix of the
+    pickle), in the periodic store that follows an earlier completed one: the journal reopens with the commit index of
+    the completed store - the leftover temporary file is never what is read back"""
+    out = []
+    for label, leftover in (('empty', b''), ('prefix', None), ('garbage', b'\x80\x02}q\x00X\x0f')):
+        d = os.path.join(work, 'torn_' + label)
+        shutil.rmtree(d, ignore_errors=True)
+        os.makedirs(d)
+        path = os.path.join(d, 'journal.bin')
+        res = {'leftover': label, 'commit': None, 'entries': None, 'raised': None}
+        try:
+            j = J.FileJournal(path)
+            for i in range(3):
+                j.add(b'c%d' % i, i + 1, 1)
+            j.setRaftCommitIndex(2)
+            j.onOneSecondTimer()                    # a completed store: commit index 2 is in '.meta'
+            j.setRaftCommitIndex(3)
+            j.flush()
+            if leftover is None:
+                leftover = J.dumps({'raftCommitIndex': 3})[:-3]
+            with open(path + '.meta.tmp', 'wb') as f:   # the next store was killed inside its temporary file
+                f.write(leftover)
+            j = J.FileJournal(path)
+            res['commit'] = j.getRaftCommitIndex()
+            res['entries'] = len(j)
+            j._destroy()
+        except Exception as e:
+            res['raised'] = repr(e)
+        shutil.rmtree(d, ignore_errors=True)
+        out.append(res)
+    return out
+
+
 def _known_child(work):
     J = H.load_impl()
-    return d5_witness(J, work), d6_witness(J, work)
+    return d5_witness(J, work), d6_witness(J, work), torn_tmp_witness(J, work)
 
 
 def known(ctx):
-    r5, r6 = H.run_limited(_known_child, ctx.work)
+    r5, r6, rt = H.run_limited(_known_child, ctx.work)
+    # a torn temporary file of the commit-index store is never read back
+    ctx.monitor['torn_tmp_witness'] = rt
+    for r in rt:
+        if r['raised'] or r['commit'] not in (2, 3) or r['entries'] != 3:
+            ctx.violation('C08 monitor on the implementation: after a kill inside the temporary file of the commit-index store '
+                          '(left %s) the journal reopens with commit index %r, %r entries, raised %r; stored was 2, set was 3'
+                          % (r['leftover'], r['commit'], r['entries'], r['raised']), {'kind': 'torn_tmp', 'result': r},
+                          found_input=True)
+            break
     # D5 (fixed, FX-C08-1): a record larger than the file must be accepted and survive a reopen
     ctx.monitor['d5_witness'] = r5
     if r5['raised'] or not r5['entry_ok']:
@@ -300,7 +343,7 @@ def replay(ctx, data):
             print('VIOLATION property=C08 replay=(replayed)')
             return 1
         return 0
-    if kind in ('d5', 'd6'):
+    if kind in ('d5', 'd6', 'torn_tmp'):
         known(ctx)
         return 1 if ctx.violations else 0
     print('nothing to replay for', kind)
